@@ -82,6 +82,9 @@ def run_shard(check_class, tier, seed, shard, nshards, triage=False):
             again = []
         if any(v.key == key for v in again):
             violations.append(violation.as_dict())
+        elif confirmed_in_fresh_process(check, violation):
+            # fires once per process (state left behind in a class or module): reproducible from a fresh interpreter only
+            violations.append(violation.as_dict())
         else:
             flaky.append(violation.as_dict())
 
@@ -184,6 +187,29 @@ def spawn_shards(prop, tier, seed, nshards, triage):
     finally:
         shutil.rmtree(scratch, ignore_errors=True)
     return summaries, problems
+
+
+def confirmed_in_fresh_process(check, violation):
+    """Replays one observation with `--replay` in a new interpreter; True when the same key fires there."""
+    import subprocess  # pylint: disable=import-outside-toplevel
+    import tempfile  # pylint: disable=import-outside-toplevel
+    directory = os.path.join(bootstrap.WORK, 'confirm')
+    os.makedirs(directory, exist_ok=True)
+    handle, path = tempfile.mkstemp(suffix='.json', dir=directory)
+    try:
+        with os.fdopen(handle, 'w') as stream:
+            json.dump(violation.as_dict(), stream)
+        result = subprocess.run([sys.executable, '-m', 'vmon.run', check.ID, '--tier', check.tier, '--replay', path],
+                                capture_output=True, text=True, timeout=600, check=False,
+                                cwd=os.path.dirname(os.path.dirname(os.path.abspath(__file__))))
+        return result.returncode == 1 and 'VIOLATION property=' in result.stdout
+    except Exception:  # pylint: disable=broad-except
+        return False
+    finally:
+        try:
+            os.unlink(path)
+        except OSError:
+            pass
 
 
 def write_replay(prop, index, violation):
